@@ -770,7 +770,8 @@ package ring
 //@   returns_this
 
 //@ afunc Poly.Copy
-//@   trusted copies every row
+//@   trusted copies every row; the receiver takes the level of the source (Poly.Copy resizes it)
+//@   setlen pol.Coeffs = len(p1.Coeffs)
 //@   assigns pol
 //@   ensures val(pol) == old(val(p1)) && mexp(pol) == old(mexp(p1)) && dom(pol) == old(dom(p1)) && uni(pol) == old(uni(p1))
 
